@@ -288,6 +288,8 @@ pub enum Op {
     Spawn { a: usize, spec: SpawnSpec, h: usize },
     Send { h: usize, m: usize, script: Vec<Act> },
     Call { h: usize, m: usize, script: Vec<Act> },
+    /// `WeakSender::try_force_send`: upgrade + forced submission, never waits (only on weak-sender handles)
+    ForceSend { h: usize, m: usize, script: Vec<Act> },
     /// begin a call, drop its future if it has not returned after `after` ms
     CallCancel { h: usize, m: usize, script: Vec<Act>, after: u64 },
     Ping { h: usize },
@@ -540,6 +542,15 @@ async fn exec_op(c: usize, op: Op) {
                     ret(o, res_str(&r));
                 }
                 _ => {}
+            }
+            put(h, hb);
+        }
+        Op::ForceSend { h, m, script } => {
+            let Some(hb) = take(h) else { return };
+            if let HandleBox::WeakSenderNote(_, s) = &hb {
+                let o = begin(c, h, "try_force_send", Some(m));
+                let r = s.try_force_send(Note { m, script });
+                ret(o, res_str(&r));
             }
             put(h, hb);
         }
